@@ -43,12 +43,92 @@ def status_polarity(cond, optimal_terms):
     return ('other', None)
 
 
+def counter_test(cond):
+    """cond compares an attribute with the literal 0 -> (attribute term, truth of the test when the attribute IS 0), else None"""
+    neg = False
+    c = cond
+    while c[0] == 'not':
+        neg, c = not neg, c[1]
+    if c[0] == 'cmp' and c[2][0] == 'attr' and c[3] == C(0) and c[1] in ('Eq', 'NotEq', 'Gt', 'LtE', 'GtE', 'Lt'):
+        zero = {'Eq': True, 'NotEq': False, 'Gt': False, 'LtE': True}.get(c[1])
+        if zero is None:
+            return None
+        return c[2], (zero != neg)
+    if c[0] == 'attr' and c[2] != 'status':
+        return c, neg                        # truthiness of the counter: true when it is not 0
+    return None
+
+
 class Walker:
+    """state = (latest-solve state, latest solve effect, counters) where counters is a frozenset of (attribute, 'zero'|'pos')
+    for attributes that are set to the literal 0 and only ever incremented (a solve counter, a 'solved' flag)"""
     def __init__(self, optimal_terms):
         self.optimal_terms = optimal_terms
         self.violations = []     # (kind, solve event effect, previous solve effect)
         self.solves = 0
         self.checks = 0
+        self.solve_states = {}   # id(solve effect) -> set of latest-solve states in which it can be issued
+
+    @staticmethod
+    def _st(s):
+        return s if len(s) == 3 else (s[0], s[1], frozenset())
+
+    def split(self, cond, cur):
+        """-> (states in which cond holds, states in which it does not), refining the states by what the test reveals"""
+        c = cond
+        if c[0] == 'not':
+            t, f = self.split(c[1], cur)
+            return f, t
+        if c[0] == 'bool':
+            if c[1] == 'and':
+                t, f = set(cur), set()
+                for x in c[2]:
+                    t, f1 = self.split(x, t)
+                    f |= f1
+                return t, f
+            t, f = set(), set(cur)
+            for x in c[2]:
+                t1, f = self.split(x, f)
+                t |= t1
+            return t, f
+        ct = counter_test(c)
+        if ct is not None and any(ct[0] == a for st in cur for a, _ in self._st(st)[2]):
+            attr, true_when_zero = ct
+            t, f = set(), set()
+            for st in cur:
+                v = dict(self._st(st)[2]).get(attr)
+                if v is None:
+                    t.add(st); f.add(st)
+                elif (v == 'zero') == true_when_zero:
+                    t.add(st)
+                else:
+                    f.add(st)
+            return t, f
+        pol = status_polarity(c, self.optimal_terms)
+        if pol is None:
+            return set(cur), set(cur)
+        self.checks += 1
+        t_states, f_states = set(), set()
+        for full in cur:
+            st, last, cnt = self._st(full)
+            if pol[0] == 'opt':
+                opt_when_true = pol[1]
+                if st in ('unchecked',):
+                    (t_states if opt_when_true else f_states).add(('clean', last, cnt))
+                    (f_states if opt_when_true else t_states).add(('failed', last, cnt))
+                elif st == 'clean':
+                    (t_states if opt_when_true else f_states).add((st, last, cnt))
+                elif st in ('failed', 'init'):
+                    (f_states if opt_when_true else t_states).add(('failed', last, cnt))
+            else:
+                # tested against something that is not the Optimal constant: learns nothing about optimality
+                if st == 'unchecked':
+                    t_states.add(('failed', last, cnt))
+                    f_states.add(('unchecked', last, cnt))
+                else:
+                    t_states.add((st, last, cnt))
+                    f_states.add((st, last, cnt))
+        return t_states, f_states
 
     def walk(self, effs, states):
         """states: frozenset of (state, last solve effect id or None).  Returns dict(fall, ret, brk, cont)."""
@@ -63,42 +143,37 @@ class Walker:
             if k == 'solve':
                 self.solves += 1
                 new = set()
-                for st, last in cur:
+                for full in cur:
+                    st, last, cnt = self._st(full)
+                    self.solve_states.setdefault(id(e), set()).add(st)
                     if st == 'unchecked':
                         self.violations.append(('unchecked', e, last))
                     elif st == 'failed':
                         self.violations.append(('failed', e, last))
-                    new.add(('unchecked', e))
+                    new.add(('unchecked', e, cnt))
+                cur = new
+            elif k in ('store', 'augstore') and e.target[0] == 'attr' and e.target[2] != 'status' and \
+                    ((k == 'store' and e.value in (C(0), C(False))) or (k == 'augstore' and e.op == 'Add' and e.value == C(1)) or (k == 'store' and e.value == C(True))):
+                # a counter / flag: reset to 0 (False), incremented (set True)
+                val = 'zero' if (k == 'store' and e.value in (C(0), C(False))) else 'pos'
+                new = set()
+                for full in cur:
+                    st, last, cnt = self._st(full)
+                    d = dict(cnt)
+                    if val == 'pos' and k == 'store' and e.target not in d:
+                        new.add((st, last, cnt))          # a flag we never saw reset: not tracked
+                        continue
+                    if val == 'pos' and k == 'augstore' and e.target not in d:
+                        new.add((st, last, cnt))
+                        continue
+                    d[e.target] = val
+                    new.add((st, last, frozenset(d.items())))
                 cur = new
             elif k == 'if':
-                pol = status_polarity(e.cond, self.optimal_terms)
                 synthetic = getattr(e, 'synthetic', False)   # "rest of the block" after a branch that left: no else path
-                if pol is None:
-                    r1 = self.walk(e.then, frozenset(cur))
-                    r2 = self.walk(e.orelse, frozenset() if synthetic else frozenset(cur))
-                else:
-                    self.checks += 1
-                    t_states, f_states = set(), set()
-                    for st, last in cur:
-                        if pol[0] == 'opt':
-                            opt_when_true = pol[1]
-                            if st in ('unchecked',):
-                                (t_states if opt_when_true else f_states).add(('clean', last))
-                                (f_states if opt_when_true else t_states).add(('failed', last))
-                            elif st == 'clean':
-                                (t_states if opt_when_true else f_states).add((st, last))
-                            elif st in ('failed', 'init'):
-                                (f_states if opt_when_true else t_states).add(('failed', last))
-                        else:
-                            # tested against something that is not the Optimal constant: learns nothing about optimality
-                            if st == 'unchecked':
-                                t_states.add(('failed', last))
-                                f_states.add(('unchecked', last))
-                            else:
-                                t_states.add((st, last))
-                                f_states.add((st, last))
-                    r1 = self.walk(e.then, frozenset(t_states))
-                    r2 = self.walk(e.orelse, frozenset() if synthetic else frozenset(f_states))
+                t_states, f_states = self.split(e.cond, cur)
+                r1 = self.walk(e.then, frozenset(t_states))
+                r2 = self.walk(e.orelse, frozenset() if synthetic else frozenset(f_states))
                 cur = r1['fall'] | r2['fall']
                 ret |= r1['ret'] | r2['ret']
                 brk |= r1['brk'] | r2['brk']
